@@ -102,6 +102,15 @@ func trimFraction(number string) string {
 	return strings.TrimRight(strings.TrimRight(number, "0"), ".")
 }
 
+// floorDiv is integer division rounding toward negative infinity.
+func floorDiv(a int64, b int64) int64 {
+	q := a / b
+	if a%b != 0 && (a < 0) != (b < 0) {
+		q--
+	}
+	return q
+}
+
 func formatNumberUnitLong[T NumberType](amount T, unit Unit, displayZero bool) string {
 	var formatString string
 	switch any(amount).(type) {
@@ -168,7 +177,7 @@ func (u *UnitsDefinition) FormatShortInt(data int64) string {
 	remainder := data
 	output := ""
 	for _, multiplier := range u.getSortedMultipliersCache() {
-		base := int64(math.Floor(float64(remainder) / float64(multiplier)))
+		base := floorDiv(remainder, multiplier)
 		remainder -= base * multiplier
 		output += formatNumberUnitShort(base, u.Multipliers()[multiplier], false)
 	}
@@ -200,7 +209,7 @@ func (u *UnitsDefinition) FormatLongInt(data int64) string {
 	remainder := data
 	output := ""
 	for _, multiplier := range u.getSortedMultipliersCache() {
-		base := int64(math.Floor(float64(remainder) / float64(multiplier)))
+		base := floorDiv(remainder, multiplier)
 		remainder -= base * multiplier
 		output += u.Multipliers()[multiplier].FormatLongInt(base, false)
 	}
